@@ -186,6 +186,9 @@ theorem unquoteLoop_inv : ∀ (fuel : Nat) (str res : Bytes),
     by_cases hs : str = []
     · rw [if_pos hs]; exact ⟨0, by omega, by simp, by simp⟩
     rw [if_neg hs]
+    by_cases hnl : (str.head? = some 13 || str.head? = some 10) = true
+    · rw [if_pos hnl]; exact ⟨0, by omega, by simp, by simp⟩
+    rw [if_neg hnl]
     cases hu : unquoteChar str 34 with
     | none => exact ⟨0, by omega, by simp, by simp⟩
     | some p =>
